@@ -22,7 +22,7 @@ CLAIMS = {
          "Commit result class and the autocommit read matrix after every Commit/Rollback are compared with the promise on all enumerated histories with overlapping write sets.", "6 C03"),
  "C04": ("TLC invariants on FsDbCrash.tla (one step per persistent mutation, kill before any of them, also inside recovery, two kills) + every emitted workload executed in child processes killed by SIGKILL before every mutation, recovered state compared with acknowledged prefix +- whole in-flight call",
          "All workloads of 3-5 calls (autocommit and transactional Set/Delete, multi-key Commit, Rollback, collector) are enumerated by TLC; the real code is killed before each of its persistent mutations (file create/write/close/remove, mkdir, Badger set/delete/transaction), reopened in fresh processes twice, and killed again inside recovery; the mutation labels logged by the real code must be the specification's.", "6 C04"),
- "C05": ("TLC model checking of Reopen.tla (instances x processes x sequence counter) and FsDb.tla with Close/Open at every position + replay in real OS processes",
+ "C05": ("TLC model checking of Reopen.tla (instances x processes x sequence counter) and FsDb.tla with Close/Open at every position + replay in real OS processes; a TLAPS proof of LastWriteWins for any number of instances, keys, processes and steps (proofs/ReopenProof.tla)",
          "Every script of open/close/write/delete/new-process over 1-2 database instances up to the stated length is enumerated by TLC and executed in fresh child processes over the same directories; in-process Close/Open is inserted at every position of transactional histories.", "6 C05"),
  "C06": ("controlled-scheduler executions of the real code (all schedules up to a preemption bound + seeded random) validated by TLC against LinTrace.tla: linearizability w.r.t. the L0 promise; deadlock = all actors blocked",
          "Small concurrent client programs (2-4 clients, autocommit and RU/RC transactions, a collector actor, shared keys) run with every gate of fs_db as a scheduling point; TLC searches a linearisation of each recorded call/return history; a panic or an all-blocked state is a violation. The same check judges free-running executions (ordinary goroutines, inline and through gRPC, contents up to 150 000 bytes, many overlapping reads). Recorded defect: a read overtaken by cleanup returns ErrNotFound (known finding, recognised by its schedule and its outcome).", "6 C06"),
